@@ -161,15 +161,38 @@ func (c06) Gen(r *simrt.Rand, idx int, tier string) *Case {
 		if len(prices) == 0 {
 			return nil
 		}
+		twinA, twinB := -1, -1
 		for k := r.Range(1, 3); k > 0; k-- {
-			d := c.J.Dirs[prices[r.Intn(len(prices))]]
+			twinA = prices[r.Intn(len(prices))]
+			d := c.J.Dirs[twinA]
 			d.Price += Q(r.Range(1, 50000))
 			c.J.Dirs = append(c.J.Dirs, d)
+			twinB = len(c.J.Dirs) - 1
 		}
 		// every directive in its own file
 		c.L = RandLayout(r, c.J, 8)
 		for len(c.L.Names) < 4 {
 			c.L = RandLayout(r, c.J, 8)
+		}
+		if r.P(0.35) {
+			// twin sub-ledgers: a/index.knut and b/index.knut each include "prices.knut", and the two
+			// conflicting quotes are the first line of a/prices.knut and of b/prices.knut: same
+			// spelling of the include, same name, same offset, different files
+			l := CanonLayout(c.J)
+			l.Parent = []int{-1, 0, 0, 1, 2}
+			l.Names = []string{"main.knut", "a/index.knut", "b/index.knut", "a/prices.knut", "b/prices.knut"}
+			for pos, di := range l.Order {
+				switch di {
+				case twinA:
+					l.File[pos] = 3
+				case twinB:
+					l.File[pos] = 4
+				default:
+					l.File[pos] = r.Intn(3)
+				}
+			}
+			l.Root = c.L.Root
+			c.L = l
 		}
 		c.Today = "2030-01-01"
 		c.Cmd = []string{"balance", "transcode", "print"}[r.Intn(3)]
@@ -255,7 +278,12 @@ func (c *Case) specFor(s Sched, files map[string]string, argv []string) *Spec {
 
 func (c *Case) argv(main string) []string {
 	a := strings.Fields(c.Cmd)
-	a = append(a, c.Args...)
+	for _, x := range c.Args {
+		if x == "@MAIN" {
+			x = main
+		}
+		a = append(a, x)
+	}
 	if main != "" {
 		a = append(a, main)
 	}
